@@ -1,4 +1,4 @@
 SPECIFICATION Spec
-CONSTANTS MaxOps = 6  MaxIng = 2  MaxArch = 3
+CONSTANTS MaxOps = 6  MaxIng = 2  MaxArch = 3  Variants = FALSE
 INVARIANTS Emit
 CHECK_DEADLOCK FALSE
